@@ -548,6 +548,16 @@ func chownNode(rp string, n *Inode, uid, gid int) {
 		// Linux clears S_ISUID, and S_ISGID when group-execute is set, on every chown of a non-directory
 		n.Perm = n.Perm &^ (04000 | ((n.Perm>>3)&1)<<10)
 	}
+	if n.Kind != KDir {
+		// ... and drops file capabilities (ATTR_KILL_PRIV)
+		for i, k := range n.XKeys {
+			if k == "security.capability" {
+				n.XKeys = append(append([]string(nil), n.XKeys[:i]...), n.XKeys[i+1:]...)
+				n.XVals = append(append([][]byte(nil), n.XVals[:i]...), n.XVals[i+1:]...)
+				break
+			}
+		}
+	}
 	logOp("chown", rp)
 }
 
